@@ -6,6 +6,7 @@
 // a case in which no lock attempt finishes for 30 s is reported as "threads still blocked" (replayed 3x by the check).
 //   -DSTRESS_PROP=1 : C01 (impl 0 mutex, 1 mutex(contending), 2 spinlock, 3 ticket_spinlock, 4 qspinlock)
 //   -DSTRESS_PROP=6 : C06 (impl 0 rwlock, 1 qrwlock)
+//   -DSTRESS_PROP=2 : C02 (semaphore used as a pool of cfg[4] tokens; impl 0 in-order, 1 out-of-order resume; kind = tokens wanted - 1)
 #include "pbt.h"
 #include <photon/photon.h>
 #include <photon/thread/thread.h>
@@ -50,10 +51,15 @@ struct Locks {
     PRw rw; PQ q;
     photon::mutex m0{100, false}, m1{100, true};
     photon::spinlock sp; photon::ticket_spinlock tk; photon::qspinlock qs;
+    long cap = 1;
+    std::unique_ptr<photon::semaphore> sem;
+    void init_sem() { sem.reset(new photon::semaphore((uint64_t)cap, impl == 0)); }
     // returns 0 when acquired
     int acquire(long kind, long tmo) {
         photon::Timeout to = tmo < 0 ? photon::Timeout() : photon::Timeout((uint64_t)tmo);
-#if STRESS_PROP == 6
+#if STRESS_PROP == 2
+        return sem->wait((uint64_t)kind + 1, to);
+#elif STRESS_PROP == 6
         int mode = (kind & 1) ? photon::WLOCK : photon::RLOCK;
         if (kind >= 2) return impl == 1 ? q.try_lock(mode) : rw.lock(mode, photon::Timeout(0));
         return impl == 1 ? q.lock(mode, to) : rw.lock(mode, to);
@@ -67,22 +73,28 @@ struct Locks {
         }
 #endif
     }
-    void release() {
-#if STRESS_PROP == 6
+    void release(long kind = 0) {
+#if STRESS_PROP == 2
+        sem->signal((uint64_t)kind + 1);
+#elif STRESS_PROP == 6
         if (impl == 1) q.unlock(); else rw.unlock();
 #else
         switch (impl) { case 0: m0.unlock(); break; case 1: m1.unlock(); break; case 2: sp.unlock(); break; case 3: tk.unlock(); break; default: qs.unlock(); }
 #endif
     }
     long word() {
-#if STRESS_PROP == 6
+#if STRESS_PROP == 2
+        return (long)sem->count();
+#elif STRESS_PROP == 6
         return impl == 1 ? q.st() : rw.st();
 #else
         return 0;
 #endif
     }
     bool idle() {
-#if STRESS_PROP == 6
+#if STRESS_PROP == 2
+        return (long)sem->count() == cap;
+#elif STRESS_PROP == 6
         return (impl == 1 ? q.st() : rw.st()) == 0;
 #else
         switch (impl) { case 0: return !m0.locked(); case 1: return !m1.locked(); case 2: return !sp.locked(); case 3: return true; default: return !qs.locked(); }
@@ -106,6 +118,19 @@ void worker(Shared& S, Locks& L, const std::vector<std::vector<long>>& prog, lon
             S.ev(tid, 'a', kind * 1000 + (tmo < 0 ? 999 : tmo), L.word());
             if (L.acquire(kind, tmo) != 0) { S.ev(tid, 'f', kind, L.word()); S.failed++; if (body == 1) photon::thread_yield(); continue; }
             S.ev(tid, 'g', kind, L.word());
+#if STRESS_PROP == 2
+            {
+                int held = S.readers.fetch_add((int)kind + 1) + (int)kind + 1;
+                if (held > (int)L.cap) S.violation("thread " + std::to_string(tid) + " was granted " + std::to_string(kind + 1) + " token(s): " + std::to_string(held) + " are out although the semaphore only ever had " + std::to_string(L.cap));
+                if (held > (int)kind + 1) S.overlapped_readers++;
+                if (body == 1) photon::thread_yield(); else if (body == 2) burn(barg);
+                S.readers.fetch_sub((int)kind + 1);
+                S.sections++;
+                S.ev(tid, 'u', kind, L.word());
+                L.release(kind);
+                continue;
+            }
+#endif
             if (writer) {
                 int w = S.writers.fetch_add(1), rd = S.readers.load();
                 if (w != 0 || rd != 0) S.violation("thread " + std::to_string(tid) + " holds the lock exclusively while " + std::to_string(w) + " other exclusive holder(s) and " + std::to_string(rd) + " shared holder(s) are inside");
@@ -129,6 +154,7 @@ Outcome run_case(const Case& c) {
     (void)once;
     long nth = std::max<long>(2, c.cfg.at(0)), rounds = c.cfg.at(2), per = std::max<long>(1, c.cfg.at(3));
     Shared S; Locks L; L.impl = c.cfg.at(1);
+    L.cap = c.cfg.size() > 4 ? std::max<long>(1, c.cfg[4]) : 1; L.init_sem();
     std::atomic<bool> case_done{false};
     std::thread watchdog([&]() {
         // no lock attempt finished anywhere for 30 s (a busy machine only makes things slow, it does not stop them)
@@ -173,7 +199,7 @@ rc::Gen<Case> gen_case(const vf::Options&) {
     return rc::gen::exec([]() {
         Case c;
         long nth = *rc::gen::weightedOneOf<long>({{3, vf::range(2, 3)}, {3, vf::range(4, 6)}, {1, vf::range(7, 8)}});
-#if STRESS_PROP == 6
+#if STRESS_PROP == 6 || STRESS_PROP == 2
         long impl = *vf::range(0, 1);
 #else
         long impl = *vf::range(0, 4);
@@ -184,11 +210,15 @@ rc::Gen<Case> gen_case(const vf::Options&) {
         bool spin_family = *vf::range(0, 2) == 0;
         c.cfg = {nth, impl, spin_family ? *vf::oneof<long>({2000, 8000}) : *vf::oneof<long>({30, 200, 800}), spin_family ? 1 : per};
         if (spin_family) per = 1;
+        long cap = *vf::range(1, 4);
+        c.cfg.push_back(cap);
         for (long t = 0; t < nth * per; t++) {
             long n = *vf::range(1, 4);
             std::vector<std::vector<long>> prog;
             for (long k = 0; k < n; k++) {
-#if STRESS_PROP == 6
+#if STRESS_PROP == 2
+                long kind = *vf::range(0, cap - 1);
+#elif STRESS_PROP == 6
                 long kind = *rc::gen::weightedOneOf<long>({{4, rc::gen::just<long>(0)}, {3, rc::gen::just<long>(1)}, {3, rc::gen::just<long>(2)}, {2, rc::gen::just<long>(3)}});
 #else
                 long kind = *rc::gen::weightedOneOf<long>({{3, rc::gen::just<long>(0)}, {2, rc::gen::just<long>(1)}});
@@ -196,7 +226,9 @@ rc::Gen<Case> gen_case(const vf::Options&) {
                 long tmo = *rc::gen::weightedOneOf<long>({{3, rc::gen::just<long>(-1)}, {1, rc::gen::just<long>(0)}, {2, vf::range(1, 300)}});
                 long body = *rc::gen::weightedOneOf<long>({{3, rc::gen::just<long>(0)}, {2, rc::gen::just<long>(1)}, {3, rc::gen::just<long>(2)}});
                 if (spin_family) {
-#if STRESS_PROP == 6
+#if STRESS_PROP == 2
+                    kind = kind;
+#elif STRESS_PROP == 6
                     kind = *rc::gen::weightedOneOf<long>({{4, rc::gen::just<long>(2)}, {2, rc::gen::just<long>(3)}});
 #else
                     kind = impl >= 2 ? *vf::range(0, 1) : 1;
@@ -216,7 +248,10 @@ rc::Gen<Case> gen_case(const vf::Options&) {
 
 std::string describe(const Case& c) {
     std::ostringstream o;
-#if STRESS_PROP == 6
+#if STRESS_PROP == 2
+    static const char* im[] = {"semaphore(in-order)", "semaphore(out-of-order)"}; static const char* kn[] = {"wait(1)", "wait(2)", "wait(3)", "wait(4)"};
+    o << "tokens=" << (c.cfg.size() > 4 ? c.cfg[4] : 1) << " impl=" << im[c.cfg[1] % 2];
+#elif STRESS_PROP == 6
     static const char* im[] = {"rwlock", "qrwlock"}; static const char* kn[] = {"lock(R)", "lock(W)", "try_lock(R)", "try_lock(W)"};
     o << "impl=" << im[c.cfg[1] % 2];
 #else
@@ -235,7 +270,7 @@ std::string describe(const Case& c) {
 
 int main(int argc, char** argv) {
     vf::Harness h;
-    h.prop = STRESS_PROP == 6 ? "C06" : "C01";
+    h.prop = STRESS_PROP == 6 ? "C06" : STRESS_PROP == 2 ? "C02" : "C01";
     h.gen = gen_case;
     h.run = run_case;
     h.desc = describe;
